@@ -276,7 +276,7 @@ func (g *gen) spliceCase() *vcase {
 		a.pushInt(near([]int{0, L}[g.r.Intn(2)])).op(opcode.RIGHT)
 	case 3: // CAT near MaxSize
 		total := 131070 + g.r.Intn(3) - 1
-		if g.r.Intn(4) != 0 {
+		if g.r.Intn(4*bigDiv) != 0 {
 			total = g.r.Intn(80)
 		}
 		l1 := g.r.Intn(total + 1)
@@ -321,7 +321,7 @@ func (g *gen) equalCase() *vcase {
 	}
 	sub := newAsm()
 	sel := g.r.Intn(8)
-	if sel < 2 && g.r.Intn(4) != 0 {
+	if sel < 2 && g.r.Intn(4*bigDiv) != 0 {
 		sel = 3 + g.r.Intn(5) // the two big-string shapes are expensive: 1 in 4 of their share
 	}
 	switch sel {
